@@ -89,8 +89,9 @@ print("seed confirmed:", ok_seed, "| detected by:", detected or "NONE")
 if a.save:
     d = os.path.join("/verif/seeded", a.save)
     os.makedirs(d, exist_ok=True)
-    shutil.copy(a.patch, os.path.join(d, "patch.diff"))
-    if a.demo:
+    if os.path.abspath(a.patch) != os.path.join(d, "patch.diff"):
+        shutil.copy(a.patch, os.path.join(d, "patch.diff"))
+    if a.demo and os.path.abspath(a.demo) != os.path.join(d, "demo.py"):
         shutil.copy(a.demo, os.path.join(d, "demo.py"))
     meta = {
         "property": a.id,
